@@ -39,10 +39,10 @@ META["C06"] = {
   "note": "Over the reals (rounding is outside the statement); reductions by their external contract (congruence, homogeneity, additivity); numba trusted to preserve the source semantics.",
   "technique": "contract-based deductive verification: symbolic evaluation of the real numpy bodies (pyvc.vecexpr) against sidecar closed forms, obligations discharged by z3; run-time contract (float interpreter of the same closed forms) on the real jitted functions for replay"}
 META["C07"] = {
-  "text": "Frame conditions: for the 47 metrics, the decorator wrapper, fit / predict and their helpers in all four models, Subgraph/Node construction, get_distances and pre_compute_distance, no parameter other than `self` (and no attribute-held alias of caller data: features, pre_distances) may be mutated - decided for all inputs and call histories by a conservative may-mutate inference over the real source with a fix-point over the call graph (209 obligations). `reads` obligations: no global state or RNG in those functions. The run-time channel compares caller arrays byte for byte and repeats evaluations / fits.",
+  "text": "Frame conditions: for the 47 metrics, the decorator wrapper, fit / predict and their helpers in all four models, Subgraph/Node construction, get_distances and pre_compute_distance, no parameter other than `self` (and no attribute-held alias of caller data: features, pre_distances) may be mutated - decided for all inputs and call histories by a conservative may-mutate inference over the real source with a fix-point over the call graph (209 obligations). `reads` obligations: no global state or RNG in those functions, and - one z3 non-interference obligation per metric (items metricreads:<id>, from the symbolic evaluation of the real metric body) - no metric value observes uninitialised memory (np.empty is an unknown vector; the value must be the same for any two contents). The run-time channel compares caller arrays byte for byte, repeats evaluations / fits, re-uses argument buffers and re-evaluates pairs that share coordinates after unrelated evaluations.",
   "design_ref": "DESIGN.md §3 C07",
   "note": "Static back end (no solver); external libraries assumed not to mutate their arguments; dtype-level effects (integer arrays) outside the model.",
-  "technique": "contract-based verification of frame conditions: syntactic effect inference over the real AST (modifies-clauses checked by fix-point), run-time byte comparison as bounded twin"}
+  "technique": "contract-based verification of frame conditions: syntactic effect inference over the real AST (modifies-clauses checked by fix-point), z3 non-interference obligations for uninitialised memory in the metric bodies, run-time byte comparison as bounded twin"}
 META["C08"] = {
   "text": "Definedness on the domain and agreement with the closed form are proved (C06 obligations). On top of the closed forms, symmetry, non-negativity and zero self-distance of every metric the fixed axiom table marks, and the triangle inequality of the seven metrics whose summand satisfies it pointwise, are discharged as z3 lemmas for every vector length; the Minkowski-type triangle inequalities of euclidean, average_euclidean, matusita, hellinger and log_euclidean are proved for every vector length in Lean 4 + Mathlib (lemmas/Minkowski.lean, re-checked by `lean` on every run). Finiteness in floating point, the Soergel triangle inequality (cited) and a second pass over the whole table on the compiled functions are bounded run-time contracts.",
   "design_ref": "DESIGN.md §3 C08, §7",
@@ -69,10 +69,10 @@ META["C04"] = {
   "note": "Level `other`: proved / cited / bounded parts are itemised in the evidence; bounded results are never counted as discharged.",
   "technique": TECH}
 META["C09"] = {
-  "text": "Proved: frame obligations of all predict methods (KNN-supervised and unsupervised predict modify no model state at all; supervised predict only relevance flags, which it never reads), the per-sample characterisations C03/C14 for an arbitrary loop position, the absence of global state / RNG reads, and - for the supervised / semi-supervised predict - a FUNCTIONAL characterisation (label of the first minimiser of max(cost, distance) in conquest order, with a ghost winner position) from which the relational postcondition `position_independent` is discharged: two queries of one batch that present the same sample get the same label. The residual (position-independent tie-breaking of the KNN-supervised / unsupervised predict) is covered by a bounded relational run-time contract: same sample alone, at every batch position, with duplicates, and after earlier calls, on all four model kinds.",
-  "design_ref": "DESIGN.md §3 C09, §7",
-  "note": "Level `other`: the functional characterisation is proved for one of the two predict families only; across calls the argument is frame + same function (pencil).",
-  "technique": TECH}
+  "text": "Proved: frame obligations of all predict methods (KNN-supervised and unsupervised predict modify no model state at all; supervised predict only relevance flags, which it never reads), the per-sample characterisations C03/C14 for an arbitrary loop position, the absence of global state / RNG reads (and of reads of uninitialised memory in the metrics), and a FUNCTIONAL characterisation of the answer for both predict families: supervised / semi-supervised - label of the first minimiser of max(cost, distance) in conquest order (ghost winner position), from which the relational postcondition `position_independent` is discharged by z3; KNN-supervised / unsupervised - the k-NN buffer is strictly ascending in the lexicographic order on (distance, training position), every sample outside comes after its last entry, the density is the chain over those k distances, the winner is the first maximiser of min(cost, density) (loop invariants tie_stable / tie_outside_after / tie_shifted_strict / tie_first_so_far and the per-query assertion, all discharged by z3), and lemmas/KNearest.lean (Lean 4 + Mathlib, re-checked on every run) proves that these clauses admit at most one buffer, one density and one winner, hence one label / cluster per (model, sample) whatever the batch, position or earlier calls. A relational run-time contract (same sample alone, at every batch position, with duplicates, after earlier calls, all four model kinds) is kept as replay vehicle and fallback.",
+  "design_ref": "DESIGN.md §3 C09, §7.10",
+  "note": "The step from the per-query statement to 'every call returns this function' is frame + purity (pencil). The contracts fix the tie policies of the code (first minimiser; stable buffer + first maximiser): another deterministic policy would be reported although C09 would still hold (documented over-strictness).",
+  "technique": TECH + "; uniqueness lemma in Lean 4 + Mathlib"}
 META["C20"] = {
   "text": "confusion_matrix, opf_accuracy, opf_accuracy_per_label and purity are under contract with recursive spec counters (pairs, false positives, false negatives, class and group sizes) and a recursively DEFINED real sum; loop invariants equate the accumulators with the counters, the vector statements go through assumed numpy contracts, and eight lemmas proved by emitted induction queries (counter bounds, pair counter vs. group size with equality iff the group is pure, group sizes add up to N by a double induction, monotonicity and zero test of sums) give the rest: the accuracy formula, its range [0, 1] and 'equals 1 iff all predictions are correct' are discharged for every K >= 2 and every length; recall, the purity formula, purity in (0, 1] and 'purity = 1 iff every predicted group is single-class' for every K. normalize is a static shape obligation. K = 1 for opf_accuracy and numeric normalize values are bounded run-time contracts against brute-force definitions.",
   "design_ref": "DESIGN.md §3 C20, §7",
